@@ -672,7 +672,7 @@ func init() {
 	})
 	vc.Register(&vc.Check{
 		ID: "C14", Level: "model_checking",
-		Rule: "breadth-first search with state deduplication over histories up to depth 6 (thorough 8) of {X1,X2,X3 (N=3), Y1,Y2 (N=2), heartbeat, +4999ms, +5001ms, +30s, +55s, +60001ms} on the REAL reassembler under a virtual clock, one frame per read and frames of one instant coalesced; plus, for N=2..6, EVERY non-empty set of missing packets x idle time {4999,5001,30000,55000,60001} ms x {no, partial, full} resupply x second idle time, and N=255 families (each single packet missing, evens, odds, all but the first, all but first and last); representative histories through the real connection (0x8003 on the socket once, with the next platform serial). " +
+		Rule: "breadth-first search with state deduplication over histories up to depth 6 (thorough 8) of {X1,X2,X3 (N=3), Y1,Y2 (N=2), heartbeat, +4999ms, +5001ms, +30s, +55s, +60001ms} on the REAL reassembler under a virtual clock, one frame per read and frames of one instant coalesced; plus, for N=2..6, EVERY non-empty set of missing packets x idle time {4999,5001,30000,55000,60001} ms x {no, partial, full} resupply x second idle time, and N=255 families (each single packet missing, evens, odds, all but the first, all but first and last); representative histories through the real connection (0x8003 on the socket once, with the next platform serial); 2..8 transfers of different message IDs stalled at once, on the reassembler and through the connection (one re-request each, two rounds). " +
 			"states = distinct canonical reassembler states (slot occupancy and ages relative to now) per worker, summed; transitions = reads. Non-trivial = history that triggers a re-request, an expiry or a completion",
 		Assumptions: []string{"idle/age exactly equal to 5 s / 60 s is not exercised (the property does not say which side the boundary belongs to)", "the clock is virtual (vtime); no wall clock"},
 		Run: func(ctx *vc.Ctx, rep *vc.Report) {
@@ -682,6 +682,7 @@ func init() {
 			}
 			rSearch(ctx, rep, "C14", c14Alphabet(), depth, true, 0, 4)
 			c14Subsets(ctx, rep)
+			c14Many(ctx, rep)
 		},
 		Drivers: map[string]func(json.RawMessage) string{"reasm": rReplay},
 	})
@@ -739,6 +740,30 @@ func c05Big(ctx *vc.Ctx, rep *vc.Report) {
 		c := mk(o)
 		c.Conn = true
 		rOne(ctx, rep, &idx, c)
+	}
+}
+
+// c14Many: K = 2..8 transfers of different message IDs stalled at the same time (more than the reader->writer queue for
+// re-requests holds), one heartbeat after the idle time: every one of them must get its own re-request.
+func c14Many(ctx *vc.Ctx, rep *vc.Report) {
+	var idx int64
+	ids := []uint16{0x0801, 0x0704, 0x0200, 0x0100, 0x0102, 0x0805, 0x0800, 0x1205}
+	hb := rPacket("H", 0x0002, 0, 0, 900, nil)
+	for K := 2; K <= len(ids); K++ {
+		for _, idle := range []int64{4999, 5001} {
+			for _, conn := range []bool{false, true} {
+				c := rCase{Mode: "per-frame", Prop: "C14", Conn: conn}
+				for k := 0; k < K; k++ {
+					c.Events = append(c.Events, rPacket(fmt.Sprintf("T%d.1/3", k), ids[k], 3, 1, uint16(100+10*k), []byte{byte(k), 0x7E, 1}))
+					if k%2 == 1 {
+						c.Events = append(c.Events, rPacket(fmt.Sprintf("T%d.3/3", k), ids[k], 3, 3, uint16(102+10*k), []byte{byte(k), 3}))
+					}
+				}
+				c.Events = append(c.Events, rEvent{Name: fmt.Sprintf("+%dms", idle), Advance: idle}, hb,
+					rEvent{Name: "+5001ms", Advance: 5001}, hb)
+				rOne(ctx, rep, &idx, c)
+			}
+		}
 	}
 }
 
